@@ -17,4 +17,5 @@ MCDiag == [x \in MCCheckers \X MCFiles |->
 MCResidue == [x \in MCCheckers \X MCFiles |-> IF x[1] = "c1" /\ x[2] = "f3" THEN {"t"} ELSE {}]
 MCSensitive == [x \in MCCheckers \X MCFiles |-> IF x[1] = "c1" /\ x[2] = "f1" THEN {"t"} ELSE {}]
 MCRewriters == {"c2"}
+MCHasImports == [f \in MCFiles |-> f # "f2"]
 =============================================================================
